@@ -3,6 +3,7 @@ package cachekey
 import (
 	"fmt"
 	"go/ast"
+	"go/token"
 	"go/types"
 	"reflect"
 	"strings"
@@ -109,6 +110,173 @@ func Key6(p *core.Prog, r *core.Report) {
 				continue
 			}
 			r.Ok("KEY-6", key, p.Pos(tl.Elts[1].Pos()), types.TypeString(t, nil))
+		}
+	}
+}
+
+// Key78 decides KEY-7 and KEY-8.
+//
+//	KEY-7  the value behind an option is not modified in place (sorted,
+//	       element-assigned) anywhere in the command, and is re-assigned only
+//	       before its first other read (defaulting): otherwise the payload and
+//	       the output path see different values of the same option
+//	KEY-8  a payload value is the option itself or a variable, possibly passed
+//	       through whole-value functions (String(), strings.Join, the digest
+//	       encoder); it is never an element, a sub-slice, a length or an
+//	       arithmetic expression of an option, and a derived variable carried
+//	       in the payload is the one the command goes on to use
+func Key78(p *core.Prog, r *core.Report) {
+	r.Rule("KEY-7", "in a cached command the value behind an option is modified (sorted in place, element-assigned, re-assigned) only before every other read of that option (normalising or defaulting it once, for the key and the output alike)", 19)
+	r.Rule("KEY-8", "every payload value is an option, a variable or a whole-value function of those (String(), strings.Join, encodeToString): never an index, slice, len or arithmetic projection of an option; a derived variable carried in the payload is read again after TryCache", 94)
+	info := p.Info(core.PkgMain)
+	for _, cm := range commands(p) {
+		if cm.payload == nil {
+			continue
+		}
+		// ---- KEY-7
+		bad := ""
+		var badPos token.Pos
+		isFlagDeref := func(e ast.Expr) *flagVar {
+			e = ast.Unparen(e)
+			if st, ok := e.(*ast.StarExpr); ok {
+				if f := cm.byObj[core.ObjOf(info, st.X)]; f != nil {
+					return f
+				}
+			}
+			return nil
+		}
+		// readBefore: is *f read at a position before pos, outside the condition guarding the statement at pos?
+		readBefore := func(f *flagVar, at ast.Node) bool {
+			var guard ast.Node
+			for _, m := range enclosing(cm.fd.Body, at) {
+				if is, ok := m.(*ast.IfStmt); ok {
+					guard = is.Cond
+				}
+			}
+			early := false
+			ast.Inspect(cm.fd.Body, func(m ast.Node) bool {
+				st, ok := m.(*ast.StarExpr)
+				if !ok || cm.byObj[core.ObjOf(info, st.X)] != f || st.Pos() >= at.Pos() {
+					return true
+				}
+				if guard != nil && guard.Pos() <= st.Pos() && st.End() <= guard.End() {
+					return true
+				}
+				early = true
+				return true
+			})
+			return early
+		}
+		ast.Inspect(cm.fd.Body, func(n ast.Node) bool {
+			switch x := n.(type) {
+			case *ast.CallExpr:
+				fn := core.Callee(info, x)
+				if fn != nil && fn.Pkg() != nil && fn.Pkg().Path() == "sort" {
+					for _, a := range x.Args {
+						inner := a
+						if cv, ok := ast.Unparen(a).(*ast.CallExpr); ok && core.IsConversion(info, cv) && len(cv.Args) == 1 {
+							inner = cv.Args[0]
+						}
+						if f := isFlagDeref(inner); f != nil && readBefore(f, x) {
+							bad, badPos = fmt.Sprintf("option %q is sorted in place (sort.%s) after it has already been read: what was computed from it before keeps the old order, what is computed after (the cache key included) sees the new one", f.name, fn.Name()), x.Pos()
+						}
+					}
+				}
+			case *ast.AssignStmt:
+				for _, l := range x.Lhs {
+					if ix, ok := ast.Unparen(l).(*ast.IndexExpr); ok {
+						if f := isFlagDeref(ix.X); f != nil && readBefore(f, x) {
+							bad, badPos = fmt.Sprintf("an element of option %q is overwritten after the option has already been read", f.name), x.Pos()
+						}
+					}
+					if f := isFlagDeref(l); f != nil && readBefore(f, x) {
+						bad, badPos = fmt.Sprintf("option %q is re-assigned after it has already been read: earlier and later uses disagree", f.name), x.Pos()
+					}
+				}
+			}
+			return true
+		})
+		if bad != "" {
+			r.Bad("KEY-7", cm.name, p.Pos(badPos), bad)
+		} else {
+			r.Ok("KEY-7", cm.name, p.Pos(cm.fd.Pos()), "option values are not modified in place")
+		}
+		// ---- KEY-8
+		mentionsFlag := func(e ast.Node) bool {
+			found := false
+			ast.Inspect(e, func(n ast.Node) bool {
+				if id, ok := n.(*ast.Ident); ok && cm.byObj[core.ObjOf(info, id)] != nil {
+					found = true
+				}
+				return !found
+			})
+			return found
+		}
+		for i, el := range cm.payload.Elts {
+			tl, ok := ast.Unparen(el).(*ast.CompositeLit)
+			if !ok || len(tl.Elts) != 2 {
+				continue
+			}
+			name, _ := core.ConstString(info, tl.Elts[0])
+			key := cm.name + "|tuple=" + name
+			if name == "" {
+				key = fmt.Sprintf("%s|tuple#%d", cm.name, i)
+			}
+			val := tl.Elts[1]
+			why := ""
+			ast.Inspect(val, func(n ast.Node) bool {
+				switch x := n.(type) {
+				case *ast.IndexExpr:
+					if mentionsFlag(x.X) {
+						why = "an element `" + types.ExprString(x) + "` of an option"
+					}
+				case *ast.SliceExpr:
+					if mentionsFlag(x.X) {
+						why = "a sub-slice `" + types.ExprString(x) + "` of an option"
+					}
+				case *ast.BinaryExpr:
+					if mentionsFlag(x) {
+						why = "an expression `" + types.ExprString(x) + "` computed from an option"
+					}
+				case *ast.CallExpr:
+					if core.IsBuiltin(info, x, "len") && mentionsFlag(x) {
+						why = "the length of an option"
+					}
+				}
+				return why == ""
+			})
+			if why != "" {
+				r.Bad("KEY-8", key, p.Pos(val.Pos()), "the payload carries "+why+" instead of the option itself: two settings that agree on that projection share one cache entry")
+				continue
+			}
+			// a plain local (not an option pointer, not a constant): must be used again after TryCache
+			if id, ok := ast.Unparen(val).(*ast.Ident); ok {
+				o := core.ObjOf(info, id)
+				if v, isVar := o.(*types.Var); isVar && cm.byObj[o] == nil && !v.IsField() && v.Parent() != v.Pkg().Scope() {
+					after := cm.try.End()
+					if cm.guard != nil {
+						after = cm.guard.End()
+					}
+					used := false
+					ast.Inspect(cm.fd.Body, func(n ast.Node) bool {
+						if u, ok := n.(*ast.Ident); ok && u.Pos() > after && info.Uses[u] == o {
+							used = true
+						}
+						return !used
+					})
+					isSum := false
+					for _, a := range core.Assigns(info, cm.fd.Body)[o] {
+						if a.RHS != nil && isDigest(info, core.Assigns(info, cm.fd.Body), a.RHS) {
+							isSum = true
+						}
+					}
+					if !used && !isSum {
+						r.Bad("KEY-8", key, p.Pos(val.Pos()), "the payload carries the derived variable `"+id.Name+"`, which the command never uses again: the output is computed from something else than what the key records")
+						continue
+					}
+				}
+			}
+			r.Ok("KEY-8", key, p.Pos(val.Pos()), "whole value")
 		}
 	}
 }
